@@ -29,7 +29,7 @@ func c15Configs() []*cfg.Config {
 			Services: []cfg.Service{{Name: "s0", Constructor: cfg.P("pa.New"), Args: []cfg.Val{S("%p1%")}, Scope: cfg.P("shared")}, {Name: "s1", Constructor: cfg.P("pa.New"), Args: []cfg.Val{S("@s0")}, Scope: cfg.P("non_shared")}}},
 		{Meta: meta(), Params: []cfg.KV{{K: "p0", V: cfg.Int(5)}, {K: "p1", V: S("%todo()%")}},
 			Services: []cfg.Service{{Name: "s0", Constructor: cfg.P("pa.NewVal"), Args: []cfg.Val{S("%p0%"), S("%p1%")}}, {Name: "s1", Todo: cfg.P(true)}}},
-		{Meta: meta(), Params: []cfg.KV{{K: "p0", V: S("%todo()%")}, {K: "p1", V: cfg.Bool(true)}},
+		{Meta: meta(), Params: []cfg.KV{{K: "p0", V: S(`%todo("")%`)}, {K: "p1", V: cfg.Bool(true)}},
 			Services: []cfg.Service{{Name: "s0", Constructor: cfg.P("pa.New"), Tags: []cfg.Tag{{Name: "t"}}}, {Name: "s1", Constructor: cfg.P("pa.New"), Args: []cfg.Val{S("!tagged t"), S("%p1%")}}},
 			Decorators: []cfg.Decorator{{Tag: "t", Decorator: "pa.DecSame", Args: []cfg.Val{S("%p0%")}}}},
 		{Meta: meta(), Params: []cfg.KV{{K: "p0", V: S(`%todo("not yet")%`)}, {K: "p1", V: S("%p0%:8080")}},
